@@ -239,7 +239,7 @@ func TestC06(t *testing.T) {
 	}
 
 	// (a) mixed generator: ground truth decides the expectation
-	runProp(t, rec, "grammar", perShard(evid.Pick(24000, 3200000)), func(rt *rapid.T) c06Case {
+	runProp(t, rec, "grammar", perShard(evid.Pick(80000, 3200000)), func(rt *rapid.T) c06Case {
 		s := cqlgen.Gen(rt, cqlgen.Opts{PlantPct: rapid.SampledFrom([]int{0, 3, 8, 20}).Draw(rt, "plantpct"), MaxPlant: 2, Neutral: rapid.Bool().Draw(rt, "neutral")})
 		c := c06Case{Text: s.Text(), Planted: s.Planted, Variants: c06Respellings(rt, s, 3)}
 		switch {
@@ -256,7 +256,7 @@ func TestC06(t *testing.T) {
 	}, c06Check)
 
 	// (b) metamorphic: a plain statement, and the same statement with one term replaced by a planted call
-	runProp(t, rec, "metamorphic", perShard(evid.Pick(8000, 800000)), func(rt *rapid.T) c06Case {
+	runProp(t, rec, "metamorphic", perShard(evid.Pick(24000, 800000)), func(rt *rapid.T) c06Case {
 		var s *cqlgen.Stmt
 		for i := 0; ; i++ {
 			s = cqlgen.Gen(rt, cqlgen.Opts{PlantPct: 0, Neutral: false})
@@ -336,7 +336,7 @@ func TestC06(t *testing.T) {
 	})
 
 	// (d) totality on arbitrary input
-	runProp(t, rec, "arbitrary", perShard(evid.Pick(24000, 3200000)), func(rt *rapid.T) c06Case {
+	runProp(t, rec, "arbitrary", perShard(evid.Pick(80000, 3200000)), func(rt *rapid.T) c06Case {
 		txt := c06Arbitrary(rt)
 		c := c06Case{Text: txt, Want: "total"}
 		lw := leadingWord(txt)
